@@ -191,6 +191,22 @@ def main(tier):
             if [float(x) for x in arr.GetAbstractValue()] != vals:
                 rep.violation({"check": "Array conversion changed the Array's own values", "category": c, "unit": u, "container": kind}, {"values": vals, "now": list(arr.GetAbstractValue())})
         rep.count(evaluations=m, nontrivial=m, traces=m)
+        # Arrays of the 'Unknown' quantity type (with and without a caption): any unit label is accepted and the amounts come back as they are,
+        # in every container kind, exactly as for the Scalars
+        from barril.units import ObtainQuantity
+        m = 0
+        for qu in (ObtainQuantity("<unknown>", "Unknown"), ObtainQuantity("<unknown>", None, "counts per litre")):
+            for kind in KINDS:
+                vals = [0.5, 2.0, -3.0]
+                arr = Array(qu, cont(vals, kind))
+                for label in ("m3", "counts/L", "degF", "<unknown>"):
+                    o = P.outcome(lambda: list(arr.GetValues(label)))
+                    so = [P.outcome(lambda x=x: Scalar(qu, x).GetValue(label)) for x in vals]
+                    m += 1
+                    if (o[0] == "ok") != all(z[0] == "ok" for z in so) or (o[0] == "ok" and [float(a) for a in o[1]] != [z[1] for z in so]):
+                        rep.violation({"check": "Array of the Unknown quantity type asked for its values", "label": label, "container": kind, "caption": qu.GetUnknownCaption()},
+                                      {"array": o[2] if o[0] != "ok" else o[1], "scalars": [z[1] if z[0] == "ok" else z[2] for z in so]})
+        rep.count(evaluations=m, nontrivial=m, traces=m)
         # a unit an application registers with the documented formula strings (the table's own units use closures): conversions and
         # arithmetic of Arrays in every container kind against the Scalars
         m = 0
